@@ -49,6 +49,11 @@ for name, (units, sw, trail) in SHAPES.items():
              desc='RLVector %s: %d symbolic runs in code-length classes %s (%d block(s), %d code units), %s trailing zeros; argument over all usize' % (qn, len(units), units, blocks, nd, 'symbolic' if trail else 'no'),
              shape={'runs': units, 'blocks': blocks, 'units': nd, 'sample_width': sw, 'query': qn})
 
+for (nv, uni, tier) in ((1, (1 << 64) - 1, 'quick'), (1, (1 << 63) + 1, 'quick'), (2, 1 << 63, 'quick'), (3, 17, 'thorough'), (9, 100, 'thorough'), (9, (1 << 64) - 1, 'thorough'), (17, (1 << 63) + 5, 'thorough'), (1, 1, 'thorough')):
+    inst(P, 'c03_sample_index_v%d_u%d' % (nv, uni), 'c03::sample_index(%d, %d)' % (nv, uni), tier=tier, unwind=nv + 3, cap=900, mem=8, role='sample index',
+         desc='SampleIndex::new + range (real code): %d symbolic increasing values below the concrete universe %d; range(v) brackets every v < universe' % (nv, uni),
+         shape={'values': nv, 'universe': uni})
+
 extra(P, assumptions=[
     'the vector is assembled from its serialized parts (samples, code units laid out per SERIALIZATION.md: 3-bit little-endian units with continuation flag, whole runs per 64-unit block, zero padding, no padding in the last block) through the cfg(simple_sds_verif) hook RLVector::verif_from_parts, which rebuilds the three sample indexes exactly as load() does; RLBuilder/From<RLBuilder> are checked separately (C16, C11)',
     'SampleIndex::parameters is replaced by its closed form for at most 16 values ((1, universe) up to 8 values): its two symbolic 64-bit divisions feed an allocation size, which is fatal for the SAT back end; the real SampleIndex::new and SampleIndex::range run',
